@@ -53,7 +53,11 @@ func run(c *vf.Case) {
 	case k <= 12:
 		runHistory(c)
 	case k == 13:
-		runBigGap(c)
+		if c.Idx%100 == 13 {
+			runLongCleanRun(c)
+		} else {
+			runBigGap(c)
+		}
 	case k == 14:
 		runOlderThanFirst(c)
 	case k <= 16:
@@ -965,6 +969,44 @@ func runBigGap(c *vf.Case) {
 	}
 	d.report(cur+int64(r.Intn(20_000_000)), size())
 	d.m.finish("big-gap", nil)
+}
+
+// runLongCleanRun: a loss-free, in-order run longer than half the sequence space (so that state
+// derived from "the last irregular packet" is more than 2^15 numbers old), across the 16-bit
+// wrap, with a report every 30..80 packets; then the stream turns irregular (loss, reordering,
+// a duplicate) and goes on. Added after seeded change C08-r5a.
+func runLongCleanRun(c *vf.Case) {
+	r := c.R
+	d := newDirect(c)
+	ssrc := pickSSRCs(r, 1)[0]
+	cur := baseTime(r)
+	idx := int64(r.Pick(60000, 65000, 30000, 100)) + 65536
+	run := r.Range(33000, 40000)
+	every := r.Range(30, 80)
+	for i := 0; i < run; i++ {
+		cur += int64(r.Range(100_000, 1_500_000))
+		d.add(cur, ssrc, idx, 0)
+		idx++
+		if i%every == every-1 {
+			d.report(cur+int64(r.Intn(1_000_000)), 1200)
+		}
+	}
+	for i := 0; i < 60; i++ {
+		cur += int64(r.Range(100_000, 1_500_000))
+		switch r.Intn(5) {
+		case 0:
+			idx++ // a loss
+		case 1:
+			d.add(cur, ssrc, idx-2, 0) // a late duplicate
+		}
+		d.add(cur, ssrc, idx, uint8(r.Intn(4)))
+		idx++
+		if i%7 == 6 {
+			d.report(cur+int64(r.Intn(1_000_000)), 1200)
+		}
+	}
+	d.report(cur+int64(r.Intn(1_000_000)), 1200)
+	d.m.finish("long-clean-run", nil)
 }
 
 // runOlderThanFirst: packets sent before the first packet that arrived turn up later.
